@@ -76,7 +76,7 @@ func c08Shapes(quick bool) []Shape {
 	var sh []Shape
 	maxN := 2
 	if !quick {
-		maxN = 3
+		maxN = 4
 	}
 	for _, dp := range dataPaths() {
 		dp := dp
@@ -137,7 +137,7 @@ func c08Shapes(quick bool) []Shape {
 func CheckC08(r *Run) int {
 	quick := r.Tier == "quick"
 	rc := checkShapesOpt(r, c08Shapes(quick), eqOpts{Target: "bash", CheckHazards: true, CompareFiles: true, ByCharClass: true}, 4000,
-		"string value = 1..2 (quick) / 1..3 (thorough) symbolic bytes over printable ASCII + newline/tab (the backquote only for run-time origins, since literals are rendered as raw strings); counterexamples are enumerated per character class of the value and each is confirmed on the real bash",
+		"string value = 1..2 (quick) / 1..4 (thorough) symbolic bytes over printable ASCII + newline/tab (the backquote only for run-time origins, since literals are rendered as raw strings); counterexamples are enumerated per character class of the value and each is confirmed on the real bash",
 		"known findings are keyed by (data path, origin, character class); a class not listed is a violation")
 	return rc
 }
